@@ -18,8 +18,12 @@ package postgresql
 
 import (
 	"context"
+	"errors"
+	"fmt"
+	"strings"
 
 	pg_query "github.com/cossacklabs/pg_query_go/v5"
+	pg_query_parser "github.com/cossacklabs/pg_query_go/v5/parser"
 	"github.com/sirupsen/logrus"
 
 	"github.com/cossacklabs/acra/decryptor/base"
@@ -42,7 +46,26 @@ func (obj *onQueryObject) Statement() (*pg_query.ParseResult, error) {
 	if obj.statement != nil {
 		return obj.statement, nil
 	}
-	return pg_query.Parse(obj.query)
+	return ParseQuery(obj.query)
+}
+
+// ParseQuery parses a statement with the PostgreSQL parser. A syntax error is reported by its kind and position only:
+// PostgreSQL's own message ends with `at or near "<token>"`, the token can be a literal value of the statement, and
+// callers log the errors they get.
+func ParseQuery(query string) (*pg_query.ParseResult, error) {
+	result, err := pg_query.Parse(query)
+	if err != nil {
+		var parseErr *pg_query_parser.Error
+		if errors.As(err, &parseErr) {
+			message := parseErr.Message
+			if i := strings.Index(message, " at or near "); i >= 0 {
+				message = message[:i]
+			}
+			return nil, fmt.Errorf("%s at position %d", message, parseErr.Cursorpos)
+		}
+		return nil, err
+	}
+	return result, nil
 }
 
 // Query return stored query or encode statement to string
